@@ -22,4 +22,12 @@ VARIANTS = [
     T("cap-literal-spelling", "polygon.Point2D.__init__", "limit_denominator(10 ** 9)", "limit_denominator(1000000000)", count=2),
     T("predicate-uses-float", "curve.Intersection.lines", "if param0 < 0 or 1 < param0:", "if float(param0) < 0 or 1 < param0:"),
     T("midpoint-other-exact", "shape.FollowPath.midpoints_one_shape", "segment(Fraction(1, 2))", "segment(Fraction(2, 4))"),
+    M("point-cross-sign", "polygon.Point2D.cross", "self[0] * other[1] - self[1] * other[0]", "self[1] * other[0] - self[0] * other[1]", ["R13.4"]),
+    M("point-sub-adds", "polygon.Point2D.__sub__", "new -= other", "new += other", ["R13.4"]),
+    M("point-mul-in-place", "polygon.Point2D.__mul__", "new = self.__copy__()", "new = self", ["R13.4"]),
+    M("point-eq-ignores-y", "polygon.Point2D.__eq__", "if abs(self[1] - other[1]) > 1e-09:\n        return False", "pass", ["R13.4"]),
+    M("point-getitem-swapped", "polygon.Point2D.__getitem__", "return self._x if index == 0 else self._y", "return self._y if index == 0 else self._x", ["R13.4"]),
+    M("point-isub-moves-plus", "polygon.Point2D.__isub__", "return self.move(-other)", "return self.move(other)", ["R13.4"]),
+    M("point-truediv-x-only", "polygon.Point2D.__itruediv__", "self._y /= other", "pass", ["R13.4"]),
+    T("point-inner-via-items", "polygon.Point2D.inner", "return self[0] * other[0] + self[1] * other[1]", "return self._x * other[0] + other[1] * self._y"),
 ]
